@@ -1075,6 +1075,20 @@ class TInterp:
             self._new(c, a.model.astype(complex), a.q, "to_complex", ins, "arith.to_complex")
             self.compare("arith.to_complex.operand", a, "operand after to_complex")
 
+    def i_hand_complex(self, ins):
+        """a node tensor replaced through the public attribute by a complex multiple of itself: the state now has nodes of
+        different dtypes (real root, complex inner node); its dense model is the old one times the phase"""
+        a = self.pick(self.S, ins["a"])
+        if a is None or self.sctx.N < 2:
+            return
+        nodes = list(a.obj.node_list)
+        nd = nodes[1 + ins["node"] % (len(nodes) - 1)]
+        ph = np.exp(1j * 0.9)
+        nd.tensor = np.asarray(nd.tensor) * ph
+        a.model = a.model * ph
+        self.r.classes.append("hand_complex_node")
+        self.compare("create.hand_complex", a, "after making one non-root node complex")
+
     def _apply_pair(self, ins):
         o = self.pick(self.O, ins["o"])
         a = self.pick(self.S, ins["a"])
@@ -1322,6 +1336,23 @@ class TInterp:
         ok, v = self.guard("observe.norm", lambda: a.obj.norm)
         if ok:
             self._obs("norm", v, np.linalg.norm(a.model), np.linalg.norm(a.model), rel=1e-8)
+        # norms are homogeneous: the same on a (non-registered) tiny / huge multiple, relative to its own scale
+        n0 = np.linalg.norm(a.model)
+        if n0 > 1e-6:
+            for fac in (3e-6, 2e5):
+                ok, y = self.guard("observe.norm_scaled.scale", a.obj.scale, fac)
+                if not ok:
+                    continue
+                ok, v = self.guard("observe.norm_scaled", lambda: y.norm)
+                if ok:
+                    self.r.check_close("observe.norm_scaled", v, fac * n0, 1e-7 * fac * n0,
+                                       f"norm of {fac} * state (norm {n0:.3e}) trace={self.trace[-6:]}")
+                ok, _ = self.guard("observe.norm_scaled.normalize", y.normalize, "mps_and_coeff")
+                if ok:
+                    ok, d = self.guard("observe.norm_scaled.todense", self.dense, y)
+                    if ok:
+                        self.r.check_close("observe.norm_scaled.normalized", d, a.model / n0, 1e-7,
+                                           f"normalize() of {fac} * state trace={self.trace[-6:]}")
 
     def i_expect(self, ins):
         from renormalizer.model import OpSum
